@@ -1,7 +1,4 @@
 import ImathVerif.Spec.BoxSpec
-import ImathVerif.Gen.C13Box
-import ImathVerif.Gen.C13Interval
-import ImathVerif.Gen.C13Algo
 import Mathlib.Tactic.Order
 import Mathlib.Tactic.SplitIfs
 import Mathlib.Tactic.Tauto
